@@ -201,7 +201,8 @@ def run(prop, tier, replay, make_plan, level="model_checking", panic_props=("C01
             rows.append({"id": i + 1, "theory": theory, "fam": h["fam"], "steps": steps})
         vlib.write_ndjson(hpath, rows)
         try:
-            r = vlib.run([os.path.join(vlib.BIN, binary), hpath, tpath], timeout=900)
+            r = vlib.run([os.path.join(vlib.BIN, binary), hpath, tpath], timeout=900,
+                         env=({"MODEL_DRIVER_MAX_OBS": "12"} if theory in plan.external else None))
         except Exception as ex:
             if type(ex).__name__ != "TimeoutExpired":
                 raise
